@@ -1,7 +1,7 @@
 (* C07 — property theorems only.  Each is closed by `exact` of a lemma of C07_Proofs.v. *)
 From Coq Require Import List NArith Bool String.
-From Dae Require Import C07_Spec C07_Model C07_Proofs C07_ProofsSplit C07_ProofsRouter C07_ProofsFwd C07_ProofsLookup.
-From Dae.gen Require C07_FwdKey.
+From Dae Require Import C07_Spec C07_Model C07_Proofs C07_ProofsSplit C07_ProofsRouter C07_ProofsFwd C07_ProofsLookup C07_ProofsInit.
+From Dae.gen Require C07_FwdKey C07_InitProg.
 From Dae.gen Require Import C07_Consts.
 Import ListNotations.
 Open Scope N_scope.
@@ -271,3 +271,27 @@ Theorem C07_reuse_first_family_refuted :
   lookup_spec reuse_rc None "" "node.example.org" 0 reuse_q <> (map (fun t => (t, 0)) (families 0), 0).
 Proof. exact C07_reuse_first_family_refuted_proof. Qed.
 Print Assumptions C07_reuse_first_family_refuted.
+
+(* ================================================================================================ *)
+(* Concurrent lazy initialisation of an upstream (UpstreamResolver.GetUpstream)                       *)
+(* ================================================================================================ *)
+
+(* EVERY CALLER GETS A REGISTERED UPSTREAM.  For any number of concurrent callers of GetUpstream and every
+   interleaving of their atomic steps (the slow path as read off the source: coq/gen/C07_InitProg.v): whatever a caller
+   gets back — its own build, or the published one on the fast path — is never nil and has been registered in
+   upstream2Index by the finish callback, so Dns.ResponseSelect recognises an answer from it as coming from the tag the
+   request router chose and `upstream(tag)` response rules see it. *)
+Theorem C07_every_caller_gets_registered_upstream :
+  forall (sched : list nat) (i : nat) (v : option nat),
+    t_done (g_thr (irun (iinit C07_InitProg.GetUpstreamProg) sched) i) = Some v ->
+    exists w, v = Some w /\ In w (g_regd (irun (iinit C07_InitProg.GetUpstreamProg) sched)).
+Proof. exact C07_every_caller_gets_registered_upstream_proof. Qed.
+Print Assumptions C07_every_caller_gets_registered_upstream.
+
+(* "Publish with compare-and-swap, only the publisher runs the callback, the loser returns its own build" is refuted:
+   two callers, the one that loses the race gets an upstream nobody registered. *)
+Theorem C07_loser_returns_own_refuted :
+  exists sched i w, t_done (g_thr (irun (iinit loser_returns_own) sched) i) = Some (Some w)
+                    /\ ~ In w (g_regd (irun (iinit loser_returns_own) sched)).
+Proof. exact C07_loser_returns_own_refuted_proof. Qed.
+Print Assumptions C07_loser_returns_own_refuted.
